@@ -86,6 +86,7 @@ VARIABLES schema, op, arg, regex
 vars == <<schema, op, arg, regex>>
 PatSeqs == SeqsOfDistinct(Patterns, 2)
 NewNames == {<<"x">>, <<"y">>}
+PermNames == { <<A>>, <<A, B>>, <<B>>, <<C>> }
 CompSchema == << <<A>>, <<A, B>>, <<B>> >>
 CompRows == [1..3 -> {I(0), I(2), I(-3), Null}]
 Ops == {"sum", "avg", "min", "max", "multiply", "constant", "join", "format"}
@@ -96,6 +97,14 @@ Init == /\ regex \in BOOLEAN
            \/ /\ op = "rename" /\ schema \in SeqsOfDistinct(Names, 3)
               /\ arg \in {[i \in DOMAIN ps |-> [src |-> ps[i], tgt |-> IF i = 1 THEN <<"x">> ELSE <<"y">>]] : ps \in PatSeqs}
               /\ \A i, j \in DOMAIN schema : i # j => RenameOf(arg, regex, schema[i]) # RenameOf(arg, regex, schema[j])   \* no two fields end up with one name
+           \* ... and renames whose targets are names the schema ALREADY has (swaps, cycles, shifts a -> b -> c): every field gets its new
+           \* name at once, from the names as they were; the pairs listed in ascending and in descending field order
+           \/ /\ op = "rename" /\ schema \in SeqsOfDistinct(PermNames, 3) /\ Len(schema) >= 2
+              /\ \E D \in (SUBSET DOMAIN schema) \ {{}} : \E h \in [D -> Range(schema) \cup {<<"x">>}] : \E up \in BOOLEAN :
+                    /\ \E i \in D : h[i] \in Range(schema) /\ h[i] # schema[i]
+                    /\ LET idx == IF up THEN SetToSortSeq(D, <) ELSE SetToSortSeq(D, >)
+                       IN arg = [k \in DOMAIN idx |-> [src |-> DotName(schema[idx[k]]), tgt |-> h[idx[k]]]]
+              /\ \A i, j \in DOMAIN schema : i # j => RenameOf(arg, regex, schema[i]) # RenameOf(arg, regex, schema[j])
            \/ /\ op = "find_replace" /\ schema = CompSchema /\ regex = TRUE
               /\ arg \in { <<"t", <<A, B>>>>, <<"t", <<B, B>>>>, <<"t", <<C>>>>, <<"t", <<>>>>, Null }      \* the cell; find "b", replace by "X"
            \/ /\ op = "computed" /\ schema = CompSchema /\ regex = TRUE
